@@ -49,6 +49,10 @@ export function applyOp(w, op) {
 }
 const opText = (op) => (op.k === "null" ? "null" : op.k === "boolean" ? `boolean(${op.v})` : op.k === "number" ? `number(${canonNum(op.v)})` : `${op.k}(len ${op.v.length}${/[^\x00-\x7f]/.test(op.v) ? ", non-ascii" : ""})`);
 
+// JSON form of an op for replay files (numbers as text: NaN, -0 and infinities are not JSON)
+const opJson = (op) => (op.k === "number" ? { k: "number", num: canonNum(op.v) } : op);
+const opFromJson = (o) => (o.k === "number" ? { k: "number", v: Number(o.num) } : o);
+
 function strOfBytes(n, kind) {
   // a string whose UTF-8 encoding has exactly n bytes (or as close as the unit allows, padded with ascii)
   const unit = kind === "ascii" ? "a" : kind === "2" ? "é" : kind === "3" ? "€" : "😀";
@@ -101,12 +105,12 @@ function writerBfs(rep) {
       const total = h2.reduce((a, o) => a + encodeOp(o).length, 0);
       transitions++;
       // conformance of the abstract state with the implementation's fields
-      if (w.bufferLength !== total % 64 || w.bytesHashed !== total) rep.violation(`C13 writer state : bufferLength/bytesHashed disagree with the byte count`, `after ${h2.map(opText).join(" ; ")}: bufferLength=${w.bufferLength} bytesHashed=${w.bytesHashed}, stream has ${total} bytes`, { engine: "E-src", history: h2.map(opText) });
+      if (w.bufferLength !== total % 64 || w.bytesHashed !== total) rep.violation(`C13 writer state : bufferLength/bytesHashed disagree with the byte count`, `after ${h2.map(opText).join(" ; ")}: bufferLength=${w.bufferLength} bytesHashed=${w.bytesHashed}, stream has ${total} bytes`, { engine: "E-src", history: h2.map(opText), ops: h2.map(opJson) });
       const key = keyOf(w);
       const off = w.bufferLength;
       const got = w.digestHex();
       const want = refDigest(h2);
-      if (got !== want) rep.violation(`C13 writer digest : from offset ${hist.length ? seen.get(keyOf(digestOfHistory(Hash256Writer, hist))) && digestOfHistory(Hash256Writer, hist).bufferLength : 0} op ${op.k}`, `digest after ${h2.map(opText).join(" ; ")} (${total} bytes) is ${got}, SHA-256 is ${want}`, { engine: "E-src", history: h2.map(opText), total, got, want });
+      if (got !== want) rep.violation(`C13 writer digest : from offset ${hist.length ? seen.get(keyOf(digestOfHistory(Hash256Writer, hist))) && digestOfHistory(Hash256Writer, hist).bufferLength : 0} op ${op.k}`, `digest after ${h2.map(opText).join(" ; ")} (${total} bytes) is ${got}, SHA-256 is ${want}`, { engine: "E-src", history: h2.map(opText), ops: h2.map(opJson), total, got, want });
       if (!seen.has(key)) {
         seen.set(key, h2);
         offsets.add(off);
@@ -305,5 +309,14 @@ export async function run() {
     },
     assumptions: ["node:crypto SHA-256 and Buffer UTF-8 encoding are the reference", "streams >= 512 MiB (high word of the bit length) are outside the bound", "separation is judged on the shared value pool P in default and strict mode"],
   });
+}
+// re-executes a recorded writer history on a fresh Hash256Writer, against node:crypto
+export async function replay(c) {
+  if (!c.ops) return null;
+  const { Hash256Writer } = freshClient().hash;
+  const hist = c.ops.map(opFromJson);
+  const got = digestOfHistory(Hash256Writer, hist).digestHex();
+  const want = refDigest(hist);
+  return { reproduced: got !== want, observed: { bytes: hist.reduce((a, o) => a + encodeOp(o).length, 0), hash256_writer: got, sha256: want } };
 }
 if (import.meta.url === `file://${process.argv[1]}`) run().then((c) => process.exit(c));
